@@ -63,12 +63,14 @@ fn observe(args: &[Sexp]) -> Option<Result<Observed, String>> {
         Err(_) => return Some(Err("(err args-while-tracing)".to_string())),
         Ok(rows) => tap_results(tap.clone(), rows).collect(),
     };
-    drop(tap);
-    // (cloning a trace is expensive: every op holds whole contexts with their folded sub-contexts)
-    let trace: Trace<Vtx> = match Rc::try_unwrap(tracer) {
-        Ok(cell) => cell.into_inner(),
-        Err(shared) => shared.borrow().clone(),
+    // the trace is taken the way the crate's users (and its testbin) take it: through
+    // `AdapterTap::finish()` (seeded change C15-1 post-processes the trace there); the row iterator and
+    // its clones of the tap are gone by now, so the Arc is unique
+    let trace: Trace<Vtx> = match Arc::try_unwrap(tap) {
+        Ok(tap) => tap.finish(),
+        Err(_) => return Some(Err("(err tap-still-shared)".to_string())),
     };
+    drop(tracer);
     let t0 = std::time::Instant::now();
     // RON of a trace costs ~40-120 us per op; the few giant traces (up to 700k ops) are replayed from
     // the in-memory trace instead of the round-tripped one
@@ -159,7 +161,7 @@ impl Prop for C15 {
         "C15"
     }
     fn rule(&self) -> &'static str {
-        "the worlds of the engine generator; per accepted (query, dataset) one (replay-exec <schema> <data> <query> <ir> <args>) request. Implementation: rows of the direct run over the table adapter; rows of the same run under AdapterTap + tap_results (recording a Trace); the Trace is serialised to RON and to JSON and read back (traces of more than 5000 ops - about 2.5 % of the cases - are replayed from memory without the round trip); the query is replayed from each deserialised trace with NO underlying adapter (the crate's trace reader, interpreter::replay::assert_interpreted_results, which runs interpret_ir over the trace and compares every produced row and the end of the stream with the direct rows). The answer is the rows of the replayed run (model = Interp rows). Oracle on the implementation: direct rows = traced rows (traced-rows-differ), the RON / JSON round trip of the trace succeeds and is == (trace-ron-roundtrip, trace-json-roundtrip), both replays reproduce the direct rows without panicking (replay-ron-failed, replay-json-failed). Non-trivial (nt:<feature>+rows): the query uses a fold / optional / recursion / coercion / tag and returned >= 1 row."
+        "the worlds of the engine generator; per accepted (query, dataset) one (replay-exec <schema> <data> <query> <ir> <args>) request. Implementation: rows of the direct run over the table adapter; rows of the same run under AdapterTap + tap_results (recording a Trace, taken with AdapterTap::finish()); the Trace is serialised to RON and to JSON and read back (traces of more than 5000 ops - about 2.5 % of the cases - are replayed from memory without the round trip); the query is replayed from each deserialised trace with NO underlying adapter (the crate's trace reader, interpreter::replay::assert_interpreted_results, which runs interpret_ir over the trace and compares every produced row and the end of the stream with the direct rows). The answer is the rows of the replayed run (model = Interp rows). Oracle on the implementation: direct rows = traced rows (traced-rows-differ), the RON / JSON round trip of the trace succeeds and is == (trace-ron-roundtrip, trace-json-roundtrip), both replays reproduce the direct rows without panicking (replay-ron-failed, replay-json-failed). Non-trivial (nt:<feature>+rows): the query uses a fold / optional / recursion / coercion / tag and returned >= 1 row."
     }
     fn generate(&self, tier: Tier, rng: &mut Rng) -> Vec<Case> {
         let (worlds, stats) = generate_worlds(rng, &WorldKnobs::for_tier(tier));
